@@ -202,12 +202,15 @@ def contents():
     return {
         'json': [('ascii', obo_doc('Phenotypic abnormality', '2024-01-01', 3)), ('non-ascii', obo_doc('Anomalie phénotypique 表現型 😀', '2023-10-09', 5)),
                  ('ascii-2', obo_doc('Another label', '2022-02-02', 2)), ('no-version', obo_doc('Unversioned', None, 2)), ('bom', '\ufeff' + obo_doc('With BOM é', '2021-01-01', 2)),
-                 ('odd-separators', obo_doc('L\u2028M\x85N\x0cO\x1cP\u2029Q', '2020-05-05', 2))],
+                 ('odd-separators', obo_doc('L\u2028M\x85N\x0cO\x1cP\u2029Q', '2020-05-05', 2)),
+                 ('crlf', json.dumps(json.loads(obo_doc('CRLF é', '2020-06-06', 2)), indent=1, ensure_ascii=False).replace('\n', '\r\n'))],
         'hpoa': [('ascii', hpoa_text('DISEASE', 5)), ('non-ascii', hpoa_text('MALADIE é ß 病', 7)), ('ascii-2', hpoa_text('OTHER', 3)),
                  ('bom', '\ufeff' + hpoa_text('BOM é', 4)),
-                 ('odd-separators', hpoa_text('A\u2028B\x85C\x0cD\x1cE\x0bF\u2029G', 4))],
+                 ('odd-separators', hpoa_text('A\u2028B\x85C\x0cD\x1cE\x0bF\u2029G', 4)),
+                 ('crlf', hpoa_text('CRLF é', 4).replace('\n', '\r\n'))],
         'csv': [('a', csv_text('first', 4)), ('b', csv_text('second é', 6)), ('c', csv_text('third', 2)), ('bom', '\ufeff' + csv_text('bom', 3)),
-                ('odd-separators', csv_text('m\u2028n\x85o\x0cp\x1cq\x0br\u2029s', 3))],
+                ('odd-separators', csv_text('m\u2028n\x85o\x0cp\x1cq\x0br\u2029s', 3)),
+                ('crlf', csv_text('crlf é', 3).replace('\r\n', '\n').replace('\n', '\r\n'))],
     }
 
 
